@@ -314,6 +314,11 @@ class Corr:
         if kind == "rebuild":
             tau = int(ev.rebuild_tau) if ev.rebuild_tau else int(self.model.rebuild_tau)
             factor = float(ev.rebuilding_factor)
+            if getattr(self, "declared_events", None) is not None:
+                # (what the scenario declared for this tracker, not what the event object holds)
+                idx_ = [id(x) for x in self.sim_trackers].index(id(tracker)) if getattr(self, "sim_trackers", None) and id(tracker) in [id(x) for x in self.sim_trackers] else None
+                if idx_ is not None and idx_ < len(self.declared_events) and self.declared_events[idx_].get("type") == "rebuild":
+                    factor = float(self.declared_events[idx_].get("factor", factor))
         else:
             tau = int(ev.recovery_tau)
             fn = ev.recovery_function
@@ -457,6 +462,7 @@ class Corr:
     def step(self, st: dict, sim, phases=None) -> list:
         out = []
         ph = st["phases"]
+        self.sim_trackers = list(getattr(sim, "_event_tracking", []))
         for name in ("events_pre", "overprod", "production", "distribute", "events_post", "orders"):
             if name not in ph or (phases is not None and name not in phases):
                 continue
